@@ -3,7 +3,7 @@
    lists of thread choices, any number of producers, any flow keys, any channel capacity, sync.Pool
    handing back any channel that was put). *)
 From Coq Require Import List Arith Bool ZArith.
-From Dae Require Import C13_Spec C13_Model C13_Proofs.
+From Dae Require Import C13_Spec C13_Model C13_Proofs C13_Inv C13_EpModel C13_EpProofs C13_EpTuples.
 Import ListNotations.
 
 (* The full statement: for every schedule the history satisfies the spec's safety clause (per flow the
@@ -51,6 +51,13 @@ Theorem C13_no_dup_no_invent_partial :
 Proof. exact C13_no_dup_no_invent_proof. Qed.
 Print Assumptions C13_no_dup_no_invent_partial.
 
+(* At most one worker per flow key is inside a task at any time, for every schedule (a replaced queue's
+   convoy never runs a task again; two live queues never share a key). *)
+Theorem C13_one_at_a_time :
+  forall cap keys sched, spec_one_at_a_time (st_log (run cap keys sched)).
+Proof. exact C13_one_at_a_time_proof. Qed.
+Print Assumptions C13_one_at_a_time.
+
 (* Kernel flow entries: for every history of retain / release / forget operations over any trackers
    (generations) and tuples, the kernel delete issued by an operation is exactly the spec's (the tuple,
    iff that operation is a release that takes the owner count from one to zero; a hand-over = retain in
@@ -61,6 +68,69 @@ Theorem C13_tuple_refcount :
     /\ (forall g k, (exists e, ts_tr (trun h) g k = Some e) <-> 0 < owners_after h g k).
 Proof. exact C13_tuple_refcount_proof. Qed.
 Print Assumptions C13_tuple_refcount.
+
+(* ---- endpoint pool (C13_EpModel.v: GetOrCreate, retire, Close, WriteTo, adoptGeneration, health
+   invalidation, Reset, janitor sweep, time; one call = one step) ---- *)
+
+(* Every endpoint that was dialled: its transport is closed at most once, exactly when the endpoint is
+   closed, and as soon as the endpoint is no longer the pool's entry for its key it has been closed —
+   after any history of calls, dial outcomes, write errors, invalidations, sweeps, resets, clock steps. *)
+Theorem C13_close_once :
+  forall ops e u, nth_error (p_eps (prun ops)) e = Some u -> u_failed u = false ->
+    u_conn_closes u <= 1
+    /\ (u_conn_closes u = 1 <-> u_closed u = true)
+    /\ (p_pool (prun ops) (u_key u) <> Some e -> u_conn_closes u = 1).
+Proof. exact C13_close_once_proof. Qed.
+Print Assumptions C13_close_once.
+
+(* Whatever a call hands out, after any history: never a failure marker, never a retired (dead) or closed
+   endpoint, never one whose transport was closed, never one invalidated by a health change before it
+   carried traffic; and it is the pool's entry for its key. *)
+Theorem C13_never_resurrect :
+  forall ops o e,
+    r_ret (snd (pstep (prun ops) o)) = Some e -> handed_ok (fst (pstep (prun ops) o)) e.
+Proof. exact C13_never_resurrect_proof. Qed.
+Print Assumptions C13_never_resurrect.
+
+(* A key whose dial failed recently is answered with the failure error, without a dial and without any
+   change of state. *)
+Theorem C13_failed_recently :
+  forall s k d g out e u,
+    p_pool s k = Some e -> nth_error (p_eps s) e = Some u -> u_failed u = true -> is_expired u (p_now s) = false ->
+    pstep s (PGoc k d g out) = (s, mkER None false 1).
+Proof. exact C13_failed_recently_proof. Qed.
+Print Assumptions C13_failed_recently.
+
+(* While the endpoint of a key is alive (not retired, and current or already carrying traffic) every call
+   for the key returns that endpoint, dials nothing and leaves the pool as it is; and no call ever dials
+   more than once. *)
+Theorem C13_endpoint_stable_single_dial :
+  (forall s k d g out e u,
+      p_pool s k = Some e -> nth_error (p_eps s) e = Some u -> u_failed u = false -> stale s u = false ->
+      let r := pstep s (PGoc k d g out) in
+      snd r = mkER (Some e) false 0 /\ p_dials (fst r) = p_dials s /\ p_pool (fst r) = p_pool s)
+  /\ (forall s o, p_dials (fst (pstep s o)) <= S (p_dials s)).
+Proof. exact (conj C13_endpoint_stable_proof C13_single_dial_proof). Qed.
+Print Assumptions C13_endpoint_stable_single_dial.
+
+(* Kernel flow entries follow their endpoints: after any history, generation g's tracker holds tuple t with
+   exactly as many references as there are endpoints owned by g (creator, or the last generation that
+   adopted them on reuse) that registered t and have not released their conn state; an endpoint that has
+   released owns nothing.  Together with C13_tuple_refcount: the kernel entry is deleted exactly when its last
+   owning endpoint is closed, and a reload hand-over (adoption) moves the reference without a delete. *)
+Theorem C13_endpoint_tuples :
+  forall ops g t,
+    p_tr (prun ops) g t = enc (cnt (p_eps (prun ops)) g t)
+    /\ (forall e u, nth_error (p_eps (prun ops)) e = Some u -> u_cs_closed u = true -> owns g t u = false).
+Proof. exact C13_endpoint_tuples_proof. Qed.
+Print Assumptions C13_endpoint_tuples.
+
+Example C13_endpoint_nonvacuous :
+  let ops := [PGoc 0 0 0 0; PWrite 0 0; PInval 0; PGoc 1 0 0 1; PGoc 1 0 0 0; PGoc 0 0 1 0; PWrite 0 1; PGoc 0 0 1 0; PReset] in
+  let s := prun ops in
+  map u_conn_closes (p_eps s) = [1; 0; 1] /\ map u_failed (p_eps s) = [false; true; false] /\ p_dials s = 3
+  /\ snd (pstep (prun (firstn 4 ops)) (PGoc 1 0 0 0)) = mkER None false 1.
+Proof. vm_compute. repeat split. Qed.
 
 Example C13_nonvacuous :
   (let s := run 2 [7; 7; 8] witness_cross in
